@@ -166,7 +166,7 @@ impl OutputFormat for TundraDraw {
         result.ice_mode = IceMode::Ice;
 
         let mut pos = Position::default();
-        let mut attr = TextAttribute::default();
+        let mut attr = TextAttribute::new(0, 0); // the palette starts with black only: index 0
 
         while o < data.len() {
             let mut cmd = data[o];
